@@ -371,3 +371,6 @@ LEMMAS.update({
     "def.AllReachableExpanded": "introduction rule: a set R containing the start node, all of whose members are expanded and closed under the edge relation, witnesses AllReachableExpanded",
     "typing.vertex_sets_of_graph": "every vertex set built from the graph's operations is a subset of its state space, so its cardinality is bounded by the number of states (termination variant)",
 })
+
+LEMMAS["L5.full_space_percolates_to_empty_network"] = ("card(S) = nvars(N)  ==>  percolate_network(bn, S, remove_constants=True) has no variables: it is the empty "
+                                                       "network (the code returns BooleanNetwork() for such nodes without calling AEON)   [trivial]")
